@@ -5,7 +5,7 @@ import (
 	"fmt"
 	"os"
 	"os/exec"
-	"sort"
+	"runtime"
 	"strconv"
 	"strings"
 	"sync/atomic"
@@ -222,6 +222,11 @@ func StructuralInvariant(c *girc.Client) string {
 		}
 		return ""
 	}
+	for _, u := range users {
+		if m := okList(u.ChannelList); m != "" {
+			return "ChannelList of " + u.Nick + ": " + m
+		}
+	}
 	for _, ch := range chans {
 		if m := okList(ch.UserList); m != "" {
 			return "UserList of " + ch.Name + ": " + m
@@ -231,7 +236,7 @@ func StructuralInvariant(c *girc.Client) string {
 			if u == nil {
 				return "channel " + ch.Name + " lists unknown user " + strconv.Quote(n)
 			}
-			if !sort.StringsAreSorted(u.ChannelList) || !containsStr(u.ChannelList, girc.ToRFC1459(ch.Name)) {
+			if !containsStr(u.ChannelList, girc.ToRFC1459(ch.Name)) {
 				return "nick " + n + " is listed in " + ch.Name + " but the channel is not listed for the user"
 			}
 		}
@@ -250,6 +255,20 @@ func StructuralInvariant(c *girc.Client) string {
 			}
 			if !containsStr(ch.UserList, girc.ToRFC1459(u.Nick)) {
 				return "channel " + cn + " is listed for " + u.Nick + " but the nick is not listed in the channel"
+			}
+		}
+	}
+	return ""
+}
+
+// PermsCovered: every channel listed for a user has an entry in its permission map
+// (C05_perms_cover_partial). Returns "" or the first gap.
+func PermsCovered(c *girc.Client) string {
+	for _, u := range c.Users() {
+		keys, _, _ := u.Perms.VerifPermsMap()
+		for _, cn := range u.ChannelList {
+			if !containsStr(keys, cn) {
+				return "user " + u.Nick + " lists " + strconv.Quote(cn) + " but has no permission entry for it"
 			}
 		}
 	}
@@ -291,11 +310,29 @@ func RunHistory(nick, user string, evs []Ev) (obs, oracle string, ss *StateSessi
 	ss = StartState(nick, user)
 	mark := ss.Mark()
 	for i, e := range evs {
-		ss.Apply(e)
+		// RunHandlers returns when every foreground handler has returned; with a leaked state
+		// lock the next handler never does, so the call is watched from outside.
+		returned := make(chan struct{})
+		go func(e Ev) { ss.Apply(e); close(returned) }(e)
+		started := time.Now()
+	wait:
+		for {
+			select {
+			case <-returned:
+				break wait
+			case <-time.After(100 * time.Millisecond):
+				if !StateLockFree(ss.C, 150*time.Millisecond) {
+					return "WEDGED", fmt.Sprintf("wedge: the handlers of event %d (%s) block on a state lock that is never released", i, e.Cmd), ss
+				}
+				if time.Since(started) > 20*time.Second {
+					return "NOPONG", fmt.Sprintf("liveness: the handlers of event %d (%s) did not return", i, e.Cmd), ss
+				}
+			}
+		}
 		if ss.PanicCount() > 0 {
 			return "PANIC", fmt.Sprintf("panic: handler panicked on event %d (%s %q)", i, e.Cmd, e.Params), ss
 		}
-		if !StateLockFree(ss.C, 3*time.Second) {
+		if !StateLockFree(ss.C, 150*time.Millisecond) {
 			return "WEDGED", fmt.Sprintf("wedge: state lock still held after event %d (%s)", i, e.Cmd), ss
 		}
 	}
@@ -307,22 +344,26 @@ func RunHistory(nick, user string, evs []Ev) (obs, oracle string, ss *StateSessi
 	obs = DumpState(ss.C) + ";w=" + Written(ss.Since(mark), sentinel)
 	if m := StructuralInvariant(ss.C); m != "" {
 		oracle = "structure: " + m
+	} else if m := PermsCovered(ss.C); m != "" {
+		oracle = "perms: " + m
 	}
 	return obs, oracle, ss
 }
 
-// StateLockFree reports whether the state lock can be taken within d. A background
-// handler (CTCP replier, welcome handler) may hold the lock for an instant, so one failed
-// TryLock is not a wedge; a lock that stays held for seconds after the handlers returned is.
+// StateLockFree reports whether the state lock can be taken. A background handler (CTCP
+// replier, welcome handler) may hold the lock for an instant, so one failed TryLock is not
+// a wedge: the verdict "held" needs at least 300 failed attempts, each followed by a yield
+// to the holder, spread over at least d. A lock leaked by a handler stays held for ever.
 func StateLockFree(c *girc.Client, d time.Duration) bool {
-	deadline := time.Now().Add(d)
-	for {
+	start := time.Now()
+	for n := 0; ; n++ {
 		if c.VerifTryStateLock() {
 			return true
 		}
-		if time.Now().After(deadline) {
+		if n >= 300 && time.Since(start) >= d {
 			return false
 		}
+		runtime.Gosched()
 		time.Sleep(200 * time.Microsecond)
 	}
 }
@@ -409,6 +450,17 @@ type ConnOptions struct {
 	NoRecover bool // a handler panic is not absorbed (as with RecoverFunc == nil): the process dies
 }
 
+// mayDisconnect: events after which the client may decide to disconnect with an error.
+func mayDisconnect(e Ev, opt ConnOptions) bool {
+	switch e.Cmd {
+	case "ERROR":
+		return true
+	case "AUTHENTICATE", "902", "904", "905", "906", "908":
+		return opt.SASL
+	}
+	return false
+}
+
 // RunConnected pushes the history through the socket of a MockConnect'ed client, one line
 // at a time, then requires the liveness half of C05: a sentinel PING is answered, or
 // Connect has returned an error. Observation: the state dump, or "disconnected".
@@ -422,9 +474,17 @@ func RunConnected(nick, user string, evs []Ev, opt ConnOptions) (obs, oracle str
 		cfg.RecoverFunc = func(c *girc.Client, e *girc.HandlerError) { panic(e) }
 	}
 	ss := drive.Start(cfg)
-	defer ss.Stop()
+	var general int64 // UPDATE_GENERAL notifications seen
+	ss.C.Handlers.Add(girc.UPDATE_GENERAL, func(c *girc.Client, e girc.Event) { atomic.AddInt64(&general, 1) })
+	healthy := true // after a wedge / missing PONG verdict the client is abandoned, not stopped
+	defer func() {
+		if healthy {
+			ss.Stop()
+		}
+	}()
 	mark := ss.Mark()
 	seq := 0
+	wedged := false
 	var gone bool  // the pipe is closed or Connect has returned
 	var ended bool // Connect's result has been received
 	var derr error
@@ -439,16 +499,43 @@ func RunConnected(nick, user string, evs []Ev, opt ConnOptions) (obs, oracle str
 		default:
 		}
 	}
+	stalled := false
+	// send writes one line; the pipe is synchronous, so a client that stopped reading (its
+	// receive queue is full because the handlers block) would block the harness too.
+	send := func(line string) bool {
+		errc := make(chan error, 1)
+		go func() { errc <- ss.Send(line) }()
+		start := time.Now()
+		for {
+			select {
+			case err := <-errc:
+				if err != nil {
+					gone = true
+					return false
+				}
+				return true
+			case <-time.After(100 * time.Millisecond):
+				if !StateLockFree(ss.C, 150*time.Millisecond) {
+					wedged = true
+					return false
+				}
+				if time.Since(start) > 15*time.Second {
+					stalled = true
+					return false
+				}
+			}
+		}
+	}
 	// barrier: PING tok, then wait for its PONG or for Connect to return.
 	barrier := func() bool {
 		seq++
 		tok := SentinelPrefix + strconv.Itoa(seq)
-		if err := ss.Send("PING " + tok); err != nil {
-			gone = true
+		if !send("PING " + tok) {
 			return false
 		}
 		want := "PONG " + tok + "\r\n"
-		deadline := time.Now().Add(10 * time.Second)
+		sent := time.Now()
+		deadline := sent.Add(10 * time.Second)
 		for {
 			if pollDone(); gone {
 				return false
@@ -461,6 +548,12 @@ func RunConnected(nick, user string, evs []Ev, opt ConnOptions) (obs, oracle str
 			if time.Now().After(deadline) {
 				return false
 			}
+			// no answer for half a second and the state lock is held all the time: a handler
+			// returned (or died) with the lock held and every later handler blocks on it
+			if time.Since(sent) > 200*time.Millisecond && !StateLockFree(ss.C, 150*time.Millisecond) {
+				wedged = true
+				return false
+			}
 			time.Sleep(100 * time.Microsecond)
 		}
 	}
@@ -469,36 +562,64 @@ func RunConnected(nick, user string, evs []Ev, opt ConnOptions) (obs, oracle str
 		if !ok {
 			return "?unrenderable", ""
 		}
-		if err := ss.Send(line); err != nil {
-			gone = true
+		welcome := e.Cmd == "001" && len(e.Params) > 0
+		var before int64
+		if welcome {
+			// the welcome handler runs in the background; it ends with an UPDATE_GENERAL
+			// notification. Everything sent before is handled first, so that the next
+			// notification can only be its own.
+			if !barrier() {
+				break
+			}
+			before = atomic.LoadInt64(&general)
+		}
+		if !send(line) {
 			break
 		}
-		if e.Cmd == "001" && len(e.Params) > 0 {
-			// the welcome handler runs in the background: wait until it has taken effect
+		if welcome {
 			if !barrier() {
 				break
 			}
 			deadline := time.Now().Add(3 * time.Second)
-			for ss.C.GetNick() != e.Params[0] && e.Params[0] != "" && time.Now().Before(deadline) {
+			for atomic.LoadInt64(&general) == before && time.Now().Before(deadline) {
 				time.Sleep(50 * time.Microsecond)
 			}
 		}
 		if ss.PanicCount() > 0 {
 			return "PANIC", fmt.Sprintf("panic: handler panicked around event %d (%s %q)", i, e.Cmd, e.Params)
 		}
+		if mayDisconnect(e, opt) {
+			// Stop feeding once the client has decided to go: readLoop hands lines to a queue
+			// of 25 that nobody drains after execLoop has returned, and waits 30 s on each
+			// further line before it notices the cancellation; Connect returns that much later.
+			if !(barrier() && barrier()) {
+				break
+			}
+		}
 	}
 	// two barriers: an ERROR queued by a handler is behind at most the first one
-	alive := !gone && barrier() && barrier()
+	alive := !gone && !wedged && !stalled && barrier() && barrier()
 	if ss.PanicCount() > 0 {
 		return "PANIC", "panic: a handler panicked during the history"
 	}
+	if wedged {
+		healthy = false
+		return "WEDGED", "wedge: the state lock stays held and the client no longer reads or answers"
+	}
+	if stalled {
+		healthy = false
+		return "NOPONG", "liveness: the client stopped reading its socket for 15 s"
+	}
 	if alive {
-		if !StateLockFree(ss.C, 3*time.Second) {
+		if !StateLockFree(ss.C, 150*time.Millisecond) {
+			healthy = false
 			return "WEDGED", "wedge: state lock still held after the history"
 		}
 		obs = DumpState(ss.C) + ";w=" + WrittenNoSentinels(ss.Since(mark))
 		if m := StructuralInvariant(ss.C); m != "" {
 			oracle = "structure: " + m
+		} else if m := PermsCovered(ss.C); m != "" {
+			oracle = "perms: " + m
 		}
 		return obs, oracle
 	}
@@ -509,6 +630,7 @@ func RunConnected(nick, user string, evs []Ev, opt ConnOptions) (obs, oracle str
 		time.Sleep(200 * time.Microsecond)
 	}
 	if !ended {
+		healthy = false
 		return "NOPONG", "liveness: after the history the client neither answered a PING nor returned from Connect"
 	}
 	if derr == nil {
